@@ -585,7 +585,8 @@ def calculate_1d_bins(
         )
         binning = numpy_binning(array, bin_count, **kwargs)
     elif isinstance(_, BinningBase):
-        binning = _
+        # A copy: the binning of another histogram must not grow along with the new one
+        binning = _.copy()
     elif isinstance(_, int):
         binning = numpy_binning(array, _, **kwargs)
     elif isinstance(_, str):
